@@ -1286,6 +1286,11 @@ def canon(expr, params=(), rename=None, consts=None):
                     return ('call', ('fn', 'np.' + e.func.attr), tuple(args), kws)
             if fn in ('dict', 'list', 'tuple') and not e.args and not e.keywords:
                 return (fn,)
+            if fn == 'list' and len(e.args) == 1 and not e.keywords and isinstance(e.args[0], (ast.Tuple, ast.List)) \
+                    and not any(isinstance(x, ast.Starred) for x in e.args[0].elts):
+                return c(ast.List(elts=e.args[0].elts, ctx=ast.Load()))
+            if fn == 'super' and len(e.args) == 2 and not e.keywords and isinstance(e.args[1], ast.Name) and e.args[1].id in ('self', 'cls'):
+                return ('call', ('fn', 'super'), (), ())      # super(Class, self) is super() inside that class
             if fn == 'all' and len(e.args) == 1 and not e.keywords and isinstance(e.args[0], (ast.ListComp, ast.GeneratorExp)):
                 # all(c for ..) is not any(not c for ..)
                 inner = e.args[0]
@@ -1330,6 +1335,8 @@ def canon(expr, params=(), rename=None, consts=None):
         if isinstance(e, ast.Attribute):
             if dotted(e) in ('np.newaxis', 'numpy.newaxis'):
                 return ('const', 'None')
+            if consts and isinstance(e.ctx, ast.Load) and dotted(e) in consts:
+                return c(consts[dotted(e)])
             return ('attr', c(e.value), e.attr)
         if isinstance(e, ast.Subscript):
             # the first extent of an array is its length
@@ -1337,7 +1344,10 @@ def canon(expr, params=(), rename=None, consts=None):
                 return ('call', ('fn', 'len'), (c(e.value.value),), ())
             return ('sub', c(e.value), c(e.slice))
         if isinstance(e, ast.Slice):
-            return ('slice', c(e.lower) if e.lower else None, c(e.upper) if e.upper else None,
+            lower = e.lower
+            if isinstance(lower, ast.Constant) and lower.value == 0 and type(lower.value) is int and e.step is None:
+                lower = None                      # x[0:n] is x[:n]
+            return ('slice', c(lower) if lower else None, c(e.upper) if e.upper else None,
                     c(e.step) if e.step else None)
         if isinstance(e, ast.Tuple):
             return ('tuple',) + tuple(c(x) for x in e.elts)
@@ -1364,6 +1374,13 @@ def canon(expr, params=(), rename=None, consts=None):
             return ('cmp', tuple(type(o).__name__ for o in e.ops), c(e.left)) + tuple(c(x) for x in e.comparators)
         if isinstance(e, ast.BoolOp):
             return (type(e.op).__name__.lower(),) + tuple(sorted((c(v) for v in e.values), key=repr))
+        if isinstance(e, ast.IfExp) and isinstance(e.body, ast.Constant) and isinstance(e.orelse, ast.Constant) \
+                and isinstance(e.body.value, bool) and isinstance(e.orelse.value, bool) and e.body.value != e.orelse.value \
+                and isinstance(e.test, (ast.Compare, ast.BoolOp)) or (isinstance(e, ast.IfExp) and isinstance(e.test, ast.UnaryOp) and isinstance(e.test.op, ast.Not)
+                                                                    and isinstance(e.body, ast.Constant) and isinstance(e.orelse, ast.Constant)
+                                                                    and isinstance(e.body.value, bool) and isinstance(e.orelse.value, bool) and e.body.value != e.orelse.value):
+            # `True if a < b else False` is `a < b` (the test is a boolean already), `False if .. else True` its negation
+            return c(e.test) if e.body.value else c(ast.UnaryOp(op=ast.Not(), operand=e.test))
         if isinstance(e, ast.IfExp):
             t = e.test
             # `d[k] if k in d else x` is `d.get(k, x)`
